@@ -50,10 +50,10 @@ func (r *Reconciler) ExtendPause(increment klog.Duration) error {
 
 	extendedPause := r.Record.Entries()[pauseEntryI].Duration().Plus(increment)
 	pauseLineIndex := r.lastLinePointer - countLines(r.Record.Entries()[pauseEntryI:])
-	durationPattern := regexp.MustCompile(`(-\w+)`)
-	value := durationPattern.FindString(r.lines[pauseLineIndex].Text)
+	// The duration value is the first token on the line, right after the indentation.
+	durationPattern := regexp.MustCompile(`^(\s*)(\S+)`)
 	if extendedPause.InMinutes() != 0 {
-		r.lines[pauseLineIndex].Text = strings.Replace(r.lines[pauseLineIndex].Text, value, extendedPause.ToString(), 1)
+		r.lines[pauseLineIndex].Text = durationPattern.ReplaceAllString(r.lines[pauseLineIndex].Text, "${1}"+extendedPause.ToString())
 	}
 
 	return nil
